@@ -517,8 +517,18 @@ impl Simulation {
                 Ok(None) => {
                     #[cfg(nexosim_verif)]
                     crate::verif::point(45, 0, 0);
-                    // Update the simulation time.
-                    self.time.write(target_time);
+                    // Update the simulation time while holding the scheduler
+                    // queue lock, after checking again that nothing is due:
+                    // an action scheduled from another thread since the queue
+                    // was last examined was validated against the old time and
+                    // may be due at or before the target time.
+                    {
+                        let scheduler_queue = self.scheduler_queue.lock().unwrap();
+                        if matches!(scheduler_queue.peek(), Some((key, _)) if key.0 <= target_time) {
+                            continue;
+                        }
+                        self.time.write(target_time);
+                    }
                     if let SyncStatus::OutOfSync(lag) = self.clock.synchronize(target_time) {
                         if let Some(tolerance) = &self.clock_tolerance {
                             if &lag > tolerance {
